@@ -40,7 +40,7 @@ Fixpoint ndig_aux (fuel : nat) (c : N) : N :=
   | O => 0%N
   | S f => if (c =? 0)%N then 0%N else N.succ (ndig_aux f (c / 10)%N)
   end.
-Definition ndigits (c : N) : N := ndig_aux (N.size_nat c) c.
+Definition ndigits (c : N) : N := ndig_aux (S (N.to_nat (N.log2 c))) c.
 
 (* _round_half_up / _round_half_even: q = kept digits, r = dropped digits,
    p = 10^(number of dropped digits) *)
@@ -115,7 +115,7 @@ Definition ddiv (cx : ctx) (a b : dec) : option dec :=
       let den := if (0 <=? shift)%Z then dcoef b else (dcoef b * pow10 (Z.to_N (- shift)))%N in
       let q := (num / den)%N in
       let r := (num mod den)%N in
-      let ce := if (r =? 0)%N then strip0 (N.size_nat q) q e ideal
+      let ce := if (r =? 0)%N then strip0 (S (N.to_nat (N.log2 q))) q e ideal
                 else (if (q mod 5 =? 0)%N then N.succ q else q, e) in
       Some (dfix cx (mkDec sign (fst ce) (snd ce))).
 
